@@ -260,13 +260,21 @@ pub fn family(tier: Tier) -> Vec<Spec> {
         Tier::Quick => vec!["a", "a+", "[ab]+", "a|b", "ab?", "[ab]", "aa?", "a[ab]*", ".", "[^b]+", "aa"],
         Tier::Thorough => vec!["a", "a+", "[ab]+", "a|b", "ab?", "[ab]", "aa?", "a[ab]*", ".", "[^b]+", "aa", "(?i:a)", "a{1,2}", "[a-c]", "a$|a", "é|a", "b*a"],
     };
-    let perms3: [[usize; 3]; 6] = [[0, 1, 2], [0, 2, 1], [1, 0, 2], [1, 2, 0], [2, 0, 1], [2, 1, 0]];
+    // every assignment of three priority levels to the three patterns: all orders AND all ties
+    let mut perms3: Vec<[usize; 3]> = vec![];
+    for a in 0..3 {
+        for b in 0..3 {
+            for c in 0..3 {
+                perms3.push([a, b, c]);
+            }
+        }
+    }
     for i in 0..pool.len() {
         for j in i + 1..pool.len() {
             for k in j + 1..pool.len() {
                 let base = [pool[i], pool[j], pool[k]];
                 specs.push(Spec::new(true, base.iter().map(|p| Pat::regex(p)).collect()));
-                for pr in perms3 {
+                for pr in &perms3 {
                     let pats: Vec<Pat> = base.iter().enumerate().map(|(x, p)| Pat::regex(p).prio(3 + 2 * pr[x])).collect();
                     specs.push(Spec::new(true, pats.clone()));
                     if pr[0] == 1 {
@@ -275,7 +283,7 @@ pub fn family(tier: Tier) -> Vec<Spec> {
                 }
                 // literal token first / last with explicit priorities around it
                 if base[0] == "a" || base[0] == "aa" {
-                    for pr in perms3 {
+                    for pr in &perms3 {
                         let mut pats: Vec<Pat> = base.iter().enumerate().map(|(x, p)| Pat::regex(p).prio(3 + 2 * pr[x])).collect();
                         pats[0] = Pat::token(base[0]).prio(3 + 2 * pr[0]);
                         specs.push(Spec::new(true, pats));
@@ -285,12 +293,15 @@ pub fn family(tier: Tier) -> Vec<Spec> {
         }
     }
     let qpool = &pool[..if tier == Tier::Thorough { 10 } else { 6 }];
+    // quadruples: all 24 strict orders plus every assignment of three levels (ties in every position)
     let mut perms4: Vec<[usize; 4]> = vec![];
     for a in 0..4 {
         for b in 0..4 {
             for c in 0..4 {
                 for d in 0..4 {
-                    if a != b && a != c && a != d && b != c && b != d && c != d {
+                    let strict = a != b && a != c && a != d && b != c && b != d && c != d;
+                    let three_levels = a < 3 && b < 3 && c < 3 && d < 3;
+                    if strict || three_levels {
                         perms4.push([a, b, c, d]);
                     }
                 }
@@ -309,6 +320,22 @@ pub fn family(tier: Tier) -> Vec<Spec> {
                 }
             }
         }
+    }
+    // patterns that can match invalid UTF-8 must be rejected in str mode in EVERY form
+    for p in byte_patterns() {
+        specs.push(Spec::new(true, vec![p.clone()]));
+        if p.kind == crate::spec::Kind::Regex {
+            let mut sk = p.clone();
+            sk.kind = crate::spec::Kind::Skip;
+            specs.push(Spec::new(true, vec![sk.clone(), Pat::token("zz")]));
+            specs.push(Spec::new(false, vec![sk, Pat::token("zz")]));
+        }
+    }
+    for src in ["(?-u:[\\x80-\\xff])", "(?-u:\\xe2\\x82)", "a(?-u:.)", "(?-u:\\xc3)\\xa9", "(?s-u:.)+?b", "(?-u:[^a])"] {
+        specs.push(Spec::new(true, vec![Pat::regex(src)]));
+        specs.push(Spec::new(true, vec![Pat::skip(src), Pat::token("zz")]));
+        specs.push(Spec::new(false, vec![Pat::regex(src)]));
+        specs.push(Spec::new(false, vec![Pat::skip(src), Pat::token("zz")]));
     }
     // byte-mode family
     let bp = byte_patterns();
